@@ -14,50 +14,50 @@ import (
 // functions, fields and types the rules talk about. Everything except the exported
 // API method names is discovered structurally on every run.
 type MapModel struct {
-	Name      string // type name: "Map" / "MapOf"
-	Iface     string // cache-level interface it implements
-	Type      *types.Named
-	Methods   map[string]*ssa.Function
-	Core      *ssa.Function // the locked read-modify-write core (doCompute)
-	Resize    *ssa.Function
-	Wait      *ssa.Function // parks on the resize condition
-	Copy      *ssa.Function // copies one bucket chain into the new table
-	Append    *ssa.Function // plain insert into an unpublished bucket chain
-	NewTable  *ssa.Function
-	Ctor      []*ssa.Function // functions that allocate the map object
-	TableT    string          // table struct type name
-	BucketT   []string        // bucket struct type names (padded + inner)
-	EntryT    string          // immutable entry type (MapOf)
-	TableF    string          // map.table
-	FlagF     string          // map.resizing
-	MuF       string          // map.resizeMu
-	CondF     string          // map.resizeCond
-	AddSize   *ssa.Function
-	AddPlain  *ssa.Function
-	SumSize   *ssa.Function
-	InProg    *ssa.Function // resizeInProgress
-	NewerTbl  *ssa.Function // newerTableExists
-	IsEmpty   *ssa.Function // isEmptyBucket (Map only)
-	Problems  []string
-	LockKind  string // "spin" or "mutex"
+	Name     string // type name: "Map" / "MapOf"
+	Iface    string // cache-level interface it implements
+	Type     *types.Named
+	Methods  map[string]*ssa.Function
+	Core     *ssa.Function // the locked read-modify-write core (doCompute)
+	Resize   *ssa.Function
+	Wait     *ssa.Function // parks on the resize condition
+	Copy     *ssa.Function // copies one bucket chain into the new table
+	Append   *ssa.Function // plain insert into an unpublished bucket chain
+	NewTable *ssa.Function
+	Ctor     []*ssa.Function // functions that allocate the map object
+	TableT   string          // table struct type name
+	BucketT  []string        // bucket struct type names (padded + inner)
+	EntryT   string          // immutable entry type (MapOf)
+	TableF   string          // map.table
+	FlagF    string          // map.resizing
+	MuF      string          // map.resizeMu
+	CondF    string          // map.resizeCond
+	AddSize  *ssa.Function
+	AddPlain *ssa.Function
+	SumSize  *ssa.Function
+	InProg   *ssa.Function // resizeInProgress
+	NewerTbl *ssa.Function // newerTableExists
+	IsEmpty  *ssa.Function // isEmptyBucket (Map only)
+	Problems []string
+	LockKind string // "spin" or "mutex"
 }
 
 // Model is the structural model of the whole library.
 type Model struct {
-	P        *Prog
-	Maps     []*MapModel // [0]=Map (string keys), [1]=MapOf
-	Acquire  map[*ssa.Function]bool // spin-lock acquire helpers (structurally recognised)
-	Release  map[*ssa.Function]bool
+	P       *Prog
+	Maps    []*MapModel            // [0]=Map (string keys), [1]=MapOf
+	Acquire map[*ssa.Function]bool // spin-lock acquire helpers (structurally recognised)
+	Release map[*ssa.Function]bool
 	// Wrappers are functions that, on every path, perform exactly one acquire (or one release)
 	// of a lock derived from one of their parameters; call sites of a wrapper are lock events.
 	Wrappers map[*ssa.Function]LockWrapper
 	Problems []string
 	// cache layer
-	CacheT   [2]*types.Named // xsyncMap, xsyncMapOf (inner objects)
-	WrapT    [2]*types.Named // wrappers
-	CacheM   [2]map[string]*ssa.Function
+	CacheT    [2]*types.Named // xsyncMap, xsyncMapOf (inner objects)
+	WrapT     [2]*types.Named // wrappers
+	CacheM    [2]map[string]*ssa.Function
 	CacheCtor [2]*ssa.Function
-	ItemT    [2]string
+	ItemT     [2]string
 }
 
 var mapAPI = []string{"Load", "Store", "LoadOrStore", "LoadAndStore", "LoadOrCompute", "Compute", "LoadAndDelete", "Delete", "Range", "Clear", "Size"}
